@@ -1,6 +1,7 @@
 import Vata.Parse
 import Vata.Generated.Tables
 import Vata.InclUp
+import Vata.InclUpSim
 import Vata.InclDown
 import Vata.Compl
 import Vata.IsectModel
@@ -84,6 +85,13 @@ def checkIncl (args res : List String) : Except String (Findings × String) := d
     if bchar b != chars[0]! then f := f ++ [s!"mismatch upward-model verdict {bchar b} implementation {chars[0]!}"]
     if b != exp then throw "internal: certifying upward model contradicts the reference"
   | none => f := f ++ ["mismatch upward-model returned none (fuel / certificate)"]
+  -- the L2 model of the upward algorithm pruned by the upward simulation of the prepared union (macro-state minimisation,
+  -- skip by checkIntersection, subsumption modulo the relation; `checkInclUpSim_iff/_total`): same obligations
+  match checkInclUpSim A B 200000 with
+  | some (b, _) =>
+    if bchar b != chars[1]! then f := f ++ [s!"mismatch upward+simulation-model verdict {bchar b} implementation {chars[1]!}"]
+    if b != exp then throw "internal: certifying upward+simulation model contradicts the reference"
+  | none => f := f ++ ["mismatch upward+simulation-model returned none (fuel / certificate)"]
   -- the L2 models of the downward algorithms (`checkInclDownRec_iff/_total`, `checkInclDownNonrec_iff/_total`): on small
   -- operands, and where the implementation answered within its budget, they must return and agree with it
   -- (the downward algorithms are exponential by design – the models too: only small operands)
